@@ -45,6 +45,10 @@ def families(tier):
     return [
         ("M", lambda: enum2d.M(6 if q else 7), 1),
         ("D", lambda: enum2d.D(2 if q else 3), 1),
+        # K mutually crossing stems: the only family that reaches bracket levels beyond '{' (every level up to the 12th / 16th)
+        ("ladders-bfs", lambda: ({**enum2d.ladder(K, gap=g), "ladder": K, "depth": 3} for K in range(3, 7) for g in (0, 1)), 1),
+        ("ladders-derivations", lambda: ({**enum2d.ladder(K, lengths=[1 + (i % 2) for i in range(K)], gap=g), "ladder": K, "depth": 1, "ops": ["without_pseudoknots", "without_isolated", "str", "dot_bracket"]}
+                                         for K in range(7, (13 if q else 17)) for g in (0, 1)), 1),
     ]
 
 
@@ -118,7 +122,8 @@ def run_case(case):
     n = case["n"]
     seq = seq_of(case)
     root_ref = tuple(sorted(tuple(p) for p in case["pairs"]))
-    depth_max = 4 if _tier[0] == "quick" else 8
+    depth_max = case.get("depth") or (4 if _tier[0] == "quick" else 8)
+    ops_here = case.get("ops") or OPS
     out = []
     sigs = set()
 
@@ -182,7 +187,7 @@ def run_case(case):
         if len(hist) >= depth_max:
             continue
         for k in range(len(graph)):
-            for op in OPS:
+            for op in ops_here:
                 g2 = copy.deepcopy(graph)
                 obj = g2[k]
                 ref = refs[k]
